@@ -111,6 +111,24 @@ fn cases_for_row(isa: &Isa, row: usize, pc: u32, out: &mut Vec<Case>) {
             f.bitn = 3;
             let c = build_case(isa, row, &f, &shape, 0x00ffff20, 0x1234_5678, None, pc, 0x00, &regs);
             out.push(c);
+            // ... and whose operand is the first byte / word / long of a region (the byte below belongs to another area)
+            for start in [0x0040_0000u32, 0x00ff_bf20, 0x0000_0000] {
+                let c = build_case(isa, row, &f, &shape, start + sz.bytes(), 0x1234_5678, None, pc, 0x00, &regs);
+                out.push(c);
+            }
+        }
+        // post-increment loads whose operand is the last byte / word / long of a region
+        if shape.mode == Mode::Inc && !shape.predec && shape.load {
+            let mut f = default_fields(sz);
+            f.bitn = 3;
+            for end in [0x0060_0000u32, 0x0000_0100] {
+                let ea = end - sz.bytes();
+                if ea.wrapping_sub(pc) < 0x20 {
+                    continue;
+                }
+                let c = build_case(isa, row, &f, &shape, ea, 0x1234_5678, Some(ea), pc, 0x00, &regs);
+                out.push(c);
+            }
         }
         return;
     }
@@ -328,7 +346,7 @@ pub fn c20(_tier: Tier, _seed: u64) -> Prop {
         units.push(Unit::new(
             &format!("{}", name),
             1,
-            "benign operands (2-8 value variants, all address registers x 5 data registers for register-indirect forms, all 16 conditions for Bcc) x code in on-chip RAM / DRAM / vector area x operand, stack, vector in on-chip RAM / DRAM / vector area x 6 bus-controller settings; pre-decrement forms also with the register at the first byte after on-chip RAM",
+            "benign operands (2-8 value variants, all address registers x 5 data registers for register-indirect forms, all 16 conditions for Bcc) x code in on-chip RAM / DRAM / vector area x operand, stack, vector in on-chip RAM / DRAM / vector area x 6 bus-controller settings; pre-decrement forms also with the register at the first byte after on-chip RAM and with the operand at the first bytes of DRAM / on-chip RAM / the vector area, post-increment loads at the last bytes of DRAM / the vector area",
             move |ctx, _| {
                 ctx.cycles_only = true;
                 for &pc in CODE_AREAS.iter() {
